@@ -136,3 +136,11 @@ M("state-root-written-through", "schema_loader.go",
   "	if (ref.IsRoot() || ref.HasFragmentOnly) && root != nil {\n		data = root",
   "	if (ref.IsRoot() || ref.HasFragmentOnly) && root != nil {\n		if sw, ok := root.(*Swagger); ok && sw.Info != nil {\n			sw.Info.Description = \"touched\"\n		}\n		data = root", ["C10", "C05"])
 M("state-baseforroot-ignores-preloaded", "expander.go", "		if found && cachedRoot != nil {", "		if found && cachedRoot != nil && false {", ["C10", "C18"])
+
+# ---- C11 location spellings ---------------------------------------------------
+M("loc-base-no-clean", "normalizer.go", "	u.Path = path.Clean(u.Path)\n	if u.Path == \".\" { // empty after Clean()", "	if u.Path == \".\" { // empty after Clean()", ["C11"])
+M("loc-base-keeps-fragment", "normalizer.go", "	u.Fragment = \"\" // any fragment in the base is irrelevant\n", "", ["C11"])
+M("loc-base-lowercases-path", "normalizer.go", "	u.Path = path.Clean(u.Path)\n	if u.Path == \".\" { // empty after Clean()", "	u.Path = strings.ToLower(path.Clean(u.Path))\n	if u.Path == \".\" { // empty after Clean()", ["C11"])
+M("loc-base-no-abspath", "normalizer.go", "	u.Path = absPath(u.Path) // platform-dependent", "	u.Path = \"/\" + u.Path", ["C11"])
+M("loc-n1-revert", "normalizer.go", "				u.RawQuery = \"\" // any query component is irrelevant for a local file\n", "", ["C11"])
+M("loc-options-base-written-back", "expander.go", "	options = optionsOrDefault(options)\n	resolver := defaultSchemaLoader(spec, options, nil, nil)", "	if options != nil && options.RelativeBase != \"\" {\n		options.RelativeBase = normalizeBase(options.RelativeBase)\n	}\n	options = optionsOrDefault(options)\n	resolver := defaultSchemaLoader(spec, options, nil, nil)", ["C11"])
